@@ -15,8 +15,11 @@ Signed == {[k |-> "cs", doc |-> d, key |-> sk, keyring |-> kr, mut |-> m] :
 \* an empty keyring in both of its Go forms: EntityList{} and a nil EntityList behind a non-nil pointer
 EmptyForms == {[k |-> "cs", doc |-> d, key |-> sk, keyring |-> <<>>, ring_form |-> f, mut |-> Mut(o)] :
                   d \in Docs, sk \in {"k1", "k2"}, f \in {"empty-slice", "nil-slice"}, o \in {"none", "splice_inside", "drop_sig"}}
+\* sequences of reads of ONE document in ONE process: accept first, then keyrings that must refuse (and back)
+RingSeqs == { << <<"k1">>, <<"k2">>, <<>>, <<"k1">> >>, << <<"k2">>, <<"k1">>, <<"k2">> >>, << <<"k1", "k2">>, <<>>, <<"k2">> >> }
+Seqs == {[k |-> "cs_seq", doc |-> d, key |-> "k1", rings |-> rs, mut |-> Mut("none")] : d \in Docs, rs \in RingSeqs}
 Unsigned == {[k |-> "cs", doc |-> d, key |-> "", keyring |-> kr, mut |-> Mut(o)] : d \in Docs, kr \in Keyrings, o \in {"none", "splice_after"}}
 \* keyring = nil cannot be written as a sequence: those vectors omit the field
 NilRing == {[k |-> "cs", doc |-> d, key |-> sk, mut |-> Mut(o)] : d \in Docs, sk \in {"k1", ""}, o \in {"none", "splice_inside", "drop_sig"}}
-ASSUME Emit(SetToSeq(Signed \cup Unsigned) \o SetToSeq(NilRing) \o SetToSeq(EmptyForms))
+ASSUME Emit(SetToSeq(Signed \cup Unsigned) \o SetToSeq(NilRing) \o SetToSeq(EmptyForms) \o SetToSeq(Seqs))
 =============================================================================
